@@ -33,7 +33,7 @@ func run(seed uint64, n int, tier string, outDir string) []*Stats {
 		sta.Finish("debug")
 		return []*Stats{sta}
 	}
-	cf := NewCoqFile("From V Require Import Common.Base C01.Utf C01.Quote C01.SpecLiteral C01.Num C01.SpecNumeric C01.Keys C01.Template C01.Harness.")
+	cf := NewCoqFile("From V Require Import Common.Base C01.Utf C01.Quote C01.SpecLiteral C01.Num C01.SpecNumeric C01.Keys C01.Template C01.Directive C01.Harness.")
 	extra := ""
 
 	// 1. literal printers against the Coq model (hook level) + predicate
@@ -48,6 +48,10 @@ func run(seed uint64, n int, tier string, outDir string) []*Stats {
 	stt := NewStats("c01-templates", seed)
 	extra += corrTemplates(r, stt, cf, n/2)
 	stt.Finish("templates with substitutions (random cooked head / tails over all UTF-16 classes, chunks ending in $, \\0, CR, starting with {; 0..3 substitutions) x printer configuration x prefix column, BigInt literal texts and regular expression literal texts after prefixes ending in / < = identifier: exact bytes compared with the Coq model (C01/Template.v); the model's code points split by the template specification into exactly the cooked chunks; the real bytes cut at the substitutions and each chunk decoded by the harness oracle; distinct_nontrivial = distinct cases with a substitution / with a guard space")
+
+	std := NewStats("c01-directives", seed)
+	corrDirective(r, std, cf, n/2)
+	std.Finish("directive prologue: function bodies of 1-3 statements drawn from string-literal statements (use strict in both quotes, with \\x20 / \\u0020 / \\x73 escapes, with a line continuation, other strings; parenthesised or not), a folded side-effect-free statement and another statement; node decides whether the input body and the body printed by plain api.Transform are strict; the end-to-end Coq model (C01/Directive.v) must predict both; distinct_nontrivial = distinct bodies whose strictness changes (the recorded known findings A, A2, B, C)")
 
 	stn := NewStats("c01-numbers", seed)
 	extra += corrNumbers(r, stn, cf, n+n/2)
@@ -81,7 +85,7 @@ func run(seed uint64, n int, tier string, outDir string) []*Stats {
 	if err := os.WriteFile(filepath.Join(outDir, "c01_cases.v"), []byte(cf.String()+extra), 0o644); err != nil {
 		panic(err)
 	}
-	return []*Stats{sts, stk, stt, stn, stg, sth, sta, stasi, stl, st}
+	return []*Stats{sts, stk, stt, std, stn, stg, sth, sta, stasi, stl, st}
 }
 
 type tcase struct {
